@@ -37,7 +37,15 @@ THEOREMS = [
     'Nb.C04.mgh_image_roundtrip',
     'Nb.C04.spm_shift_inverse',
     'Nb.C04.spm_mat_roundtrip',
+    'Nb.C04.spm_mat_roundtrip_flips',
     'Nb.C04.spm_image_roundtrip',
+    'Nb.C04.spm_image_roundtrip_M_mismatch',
+    'Nb.C04.gen_spm_consts_ok',
+    'Nb.C04.mgh_forward_error',
+    'Nb.C04.qform_forward_error',
+    'Nb.C04.nifti_roundtrip_exact_of_representable',
+    'Nb.C04.nifti2_roundtrip_identity',
+    'Nb.C04.foreign_header_conversion',
     'Nb.C04.fallback_affine',
     'Nb.C04.fallback_affine_centre',
     'Nb.C04.nifti_roundtrip_no_header',
@@ -66,7 +74,10 @@ ASSUMPTIONS = [
 ]
 RULE = ('exact stream: affines = (signed permutation or small integer matrix) x power-of-two zooms x dyadic '
         'translations, x 7 image classes x {no header, header with equal / allclose-near / far affine} x '
-        'sform/qform codes 0..4 (qform-coded affines restricted to rotations whose quaternion is rational: '
+        'default_x_flip at construction / save / load (instance attribute, header subclass, class attribute, other '
+        'loading class) x supplied header of the own or of ANOTHER class (N1/N1P/N2/AN/S99/S2/MGH) x header byte '
+        'order x np.allclose boundary variants (relative 2^-17 / 2^-16, absolute 2^-27 / 2^-26) x '
+        'sform/qform codes 0..5 (qform-coded affines restricted to rotations whose quaternion is rational: '
         'identity, 180 deg about an axis, 120 deg about a diagonal, each with/without reflection) x .mat '
         'contents {mat+M, M only, none}; general stream: random rotations (incl. exact and near 180 deg) x '
         'zooms 1e-6..1e6 x reflection x shear x translations up to 1e7, with header qform variants; component '
@@ -316,7 +327,8 @@ def roundtrip(cls, shape, A, hspec, mat, fl=(True, True, True), flhow='sub', ex=
             # the supplied header as the image class sees it (converted when of another class), and its affine
             # under the flag in force at construction / save / load
             seen = Ki.header_class.from_header(hdr)
-            seen.set_data_shape(shape)
+            if seen.get_data_shape() != tuple(shape):
+                seen.set_data_shape(shape)
             ex['hdr_best_f'] = {}
             for f in (True, False):
                 if cls != 'MGH':
@@ -451,7 +463,10 @@ def impl_rt(case):
             if cls != 'MGH':
                 dh.default_x_flip = f
             ex['default_aff_f'][f] = np.array(dh.get_best_affine(), dtype=np.float64)
-        ex['loaded_hdr_aff'] = np.array(h.get_best_affine(), dtype=np.float64)
+        hh = h.copy()
+        if cls != 'MGH':
+            hh.default_x_flip = flips_of(d)[2]      # (a class-attribute patch is no longer in force here)
+        ex['loaded_hdr_aff'] = np.array(hh.get_best_affine(), dtype=np.float64)
     out = 'aff=' + show_aff(L)
     if cls in NIFTI:
         try:
@@ -792,6 +807,11 @@ def oracle(case, out):
     a = d['args']
     ex = case.extra or {}
     if d['op'] == 'r32':
+        # the contract the forward-error theorems assume of the storage rounding (L.RelRnd 2^-24), on float32's
+        # normal range
+        x = F(a[0])
+        if 2.0 ** -126 <= abs(a[0]) < 2.0 ** 127 and abs(F(np.float32(np.float64(a[0]))) - x) > abs(x) / 2 ** 24:
+            return tag('r32-contract', f'float32({a[0]!r}) is further than 2^-24 relative from its argument')
         return None
     if d['op'] == 'q2m':
         w, x, y, z = [F(v) for v in a]
@@ -1103,7 +1123,8 @@ def near_header_affine(rng, cls, shape, hdr, fl='TTT'):
     try:
         Ki = flip_class(cls, fl[0] == 'T')
         seen = Ki.header_class.from_header(build_header(cls, tuple(shape), hdr, Ki))
-        seen.set_data_shape(tuple(shape))
+        if seen.get_data_shape() != tuple(shape):
+            seen.set_data_shape(tuple(shape))
         hb = np.array(seen.get_best_affine(), dtype=np.float64)
     except Exception:
         return None
@@ -1457,6 +1478,26 @@ def cases(rng, tier):
             out.append(exact_analyze_case(rng, cls))
     for _ in range(n_gen):
         out.append(general_case(rng, rng.choice(CLASSES)))
+    # NIfTI-2 'exactly': affines that float32 cannot hold, compared bit for bit with the model (rnd = id) and by
+    # the oracle; no header / own header holding the same affine under a code / a far header / a NIfTI-2 header
+    # from a NIfTI-2 pair-less sibling is the same class, so the foreign one is NIfTI-1 (then float32 is what
+    # the header holds: finding allclose-keeps-header)
+    for _ in range(max(60, n_gen // 20)):
+        A = general_affine(rng, shear=rng.random() < 0.5)
+        while all(float(np.float32(v)) == v for v in A[:3, :].ravel()):
+            A = general_affine(rng, shear=True)
+        r = rng.random()
+        hdr = None
+        if r < 0.35:
+            hdr = {'q': [code_tok(rng, 0), None], 's': [code_tok(rng, rng.choice([1, 2, 3, 4, 5])), aff12_of(A)]}
+        elif r < 0.55:
+            B = A.copy()
+            B[:3, rng.randrange(3)] *= rng.choice([1.001, 2.0, 0.5])
+            hdr = {'q': [code_tok(rng, 0), None], 's': [code_tok(rng, rng.choice([1, 2, 3, 4, 5])), aff12_of(B)]}
+        elif r < 0.65:
+            hdr = {'q': [code_tok(rng, 0), None], 's': [code_tok(rng, 2), aff12_of(A)], 'from': rng.choice(['N1', 'N1P'])}
+        out.append(mk_rt('N2', [rng.randrange(1, 9) for _ in range(3)], aff12_of(A), rand_end(rng, hdr), 'both',
+                         'n2-f64', exact=False, line=True))
     # image affine equal / near / far relative to the DEFAULT header affine of the class, no header supplied
     for _ in range(max(20, n_exact // 40)):
         cls = rng.choice(CLASSES)
@@ -1475,15 +1516,72 @@ def cases(rng, tier):
 
 # ------------------------------------------------------------------ generated constants (Leg T)
 
+def _src_tree(rel):
+    import ast
+    from common import REPO
+    return ast.parse(open(os.path.join(REPO, rel)).read())
+
+
+def _class_fn(tree, cname, fname):
+    import ast
+    cls = next(n for n in tree.body if isinstance(n, ast.ClassDef) and n.name == cname)
+    return next(n for n in cls.body if isinstance(n, ast.FunctionDef) and n.name == fname)
+
+
+def spm_mat_consts():
+    """the literals of the SPM `.mat` reader / writer, from the AST of the working tree: the translation put
+    into `to_111` / `from_111` (`X[:3, 3] = c`) and the `np.diag([...])` x-flip matrices"""
+    import ast
+    tree = _src_tree('nibabel/spm99analyze.py')
+    out = {}
+    for fname in ('from_file_map', 'to_file_map'):
+        shifts, flips = {}, []
+        for n in ast.walk(_class_fn(tree, 'Spm99AnalyzeImage', fname)):
+            if isinstance(n, ast.Assign) and len(n.targets) == 1 and isinstance(n.targets[0], ast.Subscript) \
+                    and isinstance(n.targets[0].value, ast.Name) and ast.unparse(n.targets[0].slice) in (':3, 3', '(slice(None, 3, None), 3)'):
+                try:
+                    v = ast.literal_eval(n.value)
+                except ValueError:
+                    continue
+                if isinstance(v, int):
+                    shifts[n.targets[0].value.id] = v
+            if isinstance(n, ast.Call) and ast.unparse(n.func) == 'np.diag':
+                flips.append([int(v) for v in ast.literal_eval(n.args[0])])
+        out[fname] = (shifts, flips)
+    rd, wr = out['from_file_map'], out['to_file_map']
+    if set(rd[0]) != {'to_111'} or set(wr[0]) != {'from_111'} or len(rd[1]) != 1 or len(wr[1]) != 1:
+        raise ValueError(f'spm99analyze .mat reader/writer no longer has the to_111 / from_111 / np.diag shape: {out}')
+    return {'to': rd[0]['to_111'], 'from': wr[0]['from_111'], 'flipR': rd[1][0], 'flipW': wr[1][0]}
+
+
+def update_header_tolerances():
+    """(rtol, atol) of THE `np.allclose(self._affine, hdr.get_best_affine(), ...)` call in
+    SpatialImage.update_header: explicit keywords if the source gives them, NumPy's defaults otherwise"""
+    import ast
+    import inspect
+    fn = _class_fn(_src_tree('nibabel/spatialimages.py'), 'SpatialImage', 'update_header')
+    calls = [n for n in ast.walk(fn) if isinstance(n, ast.Call) and ast.unparse(n.func) in ('np.allclose', 'allclose')]
+    if len(calls) != 1 or len(calls[0].args) != 2:
+        raise ValueError('SpatialImage.update_header no longer decides by one two-argument np.allclose call')
+    sig = inspect.signature(np.allclose)
+    tol = {'rtol': sig.parameters['rtol'].default, 'atol': sig.parameters['atol'].default}
+    for kw in calls[0].keywords:
+        if kw.arg not in tol:
+            raise ValueError(f'np.allclose called with {kw.arg}=')
+        tol[kw.arg] = float(ast.literal_eval(kw.value))
+    return tol['rtol'], tol['atol']
+
+
 def regen():
     import inspect
     import nibabel as nib
     from nibabel import quaternions as nq
+    spm = spm_mat_consts()
+    rtol, atol = update_header_tolerances()
 
     def lit(x):
         f = Fr(float(x))
         return f'({f.numerator} : Rat) / {f.denominator}'
-    sig = inspect.signature(np.allclose)
     from nibabel.nifti1 import xform_codes
     codes = sorted(int(c) for c in xform_codes.value_set())
     alias = {c: sorted(str(k) for k, v in xform_codes.field1.items() if isinstance(k, str) and int(v) == c)
@@ -1494,8 +1592,15 @@ def regen():
            f'def n1QuatThr : Rat := {lit(nib.Nifti1Header.quaternion_threshold)}\n'
            f'def n2QuatThr : Rat := {lit(nib.Nifti2Header.quaternion_threshold)}\n'
            f'def floatEps : Rat := {lit(nq.FLOAT_EPS)}\n'
-           f'def rtol : Rat := {lit(sig.parameters["rtol"].default)}\n'
-           f'def atol : Rat := {lit(sig.parameters["atol"].default)}\n'
+           '/-- tolerances of the `np.allclose` call in `SpatialImage.update_header` (keywords of the call, else '
+           'NumPy defaults) -/\n'
+           f'def rtol : Rat := {lit(rtol)}\n'
+           f'def atol : Rat := {lit(atol)}\n'
+           '/-- `Spm99AnalyzeImage.from_file_map` / `to_file_map`: `to_111[:3, 3]`, `from_111[:3, 3]`, `np.diag` flips -/\n'
+           f'def spmTo111 : Int := {spm["to"]}\n'
+           f'def spmFrom111 : Int := {spm["from"]}\n'
+           f'def spmFlipRead : List Int := {spm["flipR"]}\n'
+           f'def spmFlipWrite : List Int := {spm["flipW"]}\n'
            '/-- `nibabel.nifti1.xform_codes`: every valid code with its string aliases -/\n'
            f'def xformTable : List (Nat × List String) := [{table}]\n'
            'def xformCodes : List Nat := xformTable.map (·.1)\n'
